@@ -36,6 +36,10 @@ type Script struct {
 	Dir   string      `json:"dir"` // c2s | s2c
 	Link  wire.Config `json:"link"`
 	Items []Item      `json:"items"`
+	// CloseAfter (in-memory and pipe links): right after the last item was sent, and while handlers are
+	// still busy with the backlog, this side closes its session: "" | sender | receiver. What is still
+	// dispatched afterwards must keep its order.
+	CloseAfter string `json:"close_after,omitempty"`
 }
 
 var durs = []int{0, 0, 1, 5, 1000, 10000}
@@ -71,6 +75,9 @@ func genScript(rt *rapid.T) Script {
 			it.CallBack = rapid.IntRange(0, 2).Draw(rt, "callback") == 0
 		}
 		s.Items = append(s.Items, it)
+	}
+	if s.Link.Kind == wire.InMem || s.Link.Kind == wire.Pipe {
+		s.CloseAfter = rapid.SampledFrom([]string{"", "", "sender", "receiver"}).Draw(rt, "close_after")
 	}
 	return s
 }
@@ -317,6 +324,15 @@ func runInBubble(s Script) (res vt.Result) {
 		}
 		sentItems = append(sentItems, sent{kind: it.Kind, ordinal: k, returned: true})
 	}
+	if s.CloseAfter != "" {
+		closeClient := (s.CloseAfter == "sender") == (s.Dir == "c2s")
+		if closeClient {
+			go cs.Close()
+		} else if ss != nil {
+			go ss.Close()
+		}
+		res.Class("closed_with_backlog_by_" + s.CloseAfter)
+	}
 	// let everything finish
 	done := make(chan struct{})
 	go func() { callWG.Wait(); close(done) }()
@@ -356,6 +372,10 @@ func runInBubble(s Script) (res vt.Result) {
 				// A stateless endpoint closes its per-request session right after accepting the POST;
 				// a notification may be discarded by that shutdown. Not an ordering matter: only counted.
 				res.Class("not_dispatched_on_stateless")
+				continue
+			}
+			if s.CloseAfter != "" {
+				res.Class("not_dispatched_after_close")
 				continue
 			}
 			res.Failf("item %d (%s) never reached the peer's handlers", i, n.kind)
